@@ -1,6 +1,7 @@
 import Csproto.Props.C14
 import Csproto.Props.C14History
 import Csproto.Bridge.Lazy
+import Csproto.Props.C14Nested
 /- axiom audit for C14 -/
 open Csproto
 #print axioms C14.clean_eq_new
@@ -23,3 +24,25 @@ open Csproto
 #print axioms Csproto.C14.flat_history_no_panic
 #print axioms Csproto.C14.histEx_ok
 #print axioms Csproto.C14.histEx_outputs
+-- C14Nested
+#print axioms Csproto.C14N.fold_close
+#print axioms Csproto.C14N.closeObj_spec
+#print axioms Csproto.C14N.closeObj_misc
+#print axioms Csproto.C14N.decodeAt
+#print axioms Csproto.C14N.W.attach
+#print axioms Csproto.C14N.attach_spec
+#print axioms Csproto.C14N.close_root
+#print axioms Csproto.C14N.accPath_spec
+#print axioms Csproto.C14N.nesteds_loop
+#print axioms Csproto.C14N.nstep_refines
+#print axioms Csproto.C14N.nested_history_refines
+#print axioms Csproto.C14N.nstep_no_panic
+#print axioms Csproto.C14N.nested_history_no_panic
+#print axioms Csproto.C14N.nhistOKb_sound
+#print axioms Csproto.C14N.nhistEx_ok
+#print axioms Csproto.C14N.nhistEx_outputs
+#print axioms Csproto.C14N.accPathC_spec
+#print axioms Csproto.C14N.xstep_refines
+#print axioms Csproto.C14N.nested_history_refines_x
+#print axioms Csproto.C14N.xhistEx_ok
+#print axioms Csproto.C14N.xhistEx_outputs
